@@ -140,7 +140,12 @@ fn ensure_client_sock(sock: u32) -> dsim::SockId {
         };
         let s = w.udp_socket(p);
         w.socks[s].cap = 1 << 20;
-        w.udp_bind(s, client_addr(sock, pool)).expect("client bind");
+        let a = client_addr(sock, pool);
+        w.udp_bind(s, a).expect("client bind");
+        if a.port() == 0 {
+            // a raw socket: the source port stays 0
+            w.socks[s].addr = Some(a);
+        }
         s
     });
     ctx(|c| c.socks.insert(sock, id));
@@ -204,7 +209,33 @@ pub fn config_text(s: &ServerSpec) -> String {
         lines.push((k.clone(), v.clone()));
     }
     lines.retain(|(k, _)| !s.omit.contains(k));
-    lines.iter().map(|(k, v)| format!("{}: {}\n", k, v)).collect()
+    if s.layout == 0 {
+        return lines.iter().map(|(k, v)| format!("{}: {}\n", k, v)).collect();
+    }
+    // another way of writing the same configuration
+    let mut rng = Rng::derive(s.layout, "config-layout");
+    if s.client_stats.is_none() && !lines.iter().any(|(k, _)| k == "persistence_directory") && !s.omit.iter().any(|k| k == "persistence_directory") && rng.chance(1, 2) {
+        lines.push(("persistence_directory".into(), String::new()));
+    }
+    for i in (1..lines.len()).rev() {
+        let j = rng.below(i as u64 + 1) as usize;
+        lines.swap(i, j);
+    }
+    let mut out = String::new();
+    if rng.chance(1, 3) {
+        out.push_str("# roughenough configuration\n");
+    }
+    for (k, v) in &lines {
+        if rng.chance(1, 8) {
+            out.push_str("\n");
+        }
+        if v.is_empty() {
+            out.push_str(&format!("{}:\n", k));
+        } else {
+            out.push_str(&format!("{}: {}\n", k, v));
+        }
+    }
+    out
 }
 
 pub fn config_env(s: &ServerSpec) -> BTreeMap<String, String> {
@@ -506,6 +537,8 @@ struct Parts {
     srep_raw: Option<Vec<u8>>,
     /// the classic layout without a top-level NONC (what Google's servers send)
     omit_nonc: bool,
+    /// unsigned extra top-level fields
+    extra_top: Vec<(u32, Vec<u8>)>,
 }
 
 impl Parts {
@@ -543,6 +576,11 @@ impl Parts {
         m.put(r::SREP, &self.srep_bytes());
         m.put(r::CERT, &cert.encode());
         m.put(r::INDX, &self.index);
+        for (t, v) in &self.extra_top {
+            if !m.has(*t) {
+                m.put(*t, v);
+            }
+        }
         match self.proto {
             r::Proto::Classic => m.encode(),
             r::Proto::Ietf => m.encode_framed(),
@@ -616,6 +654,7 @@ fn honest_parts(proto: r::Proto, long_seed: &[u8; 32], online_seed: &[u8; 32], r
         maxt: u64::MAX.to_le_bytes().to_vec(),
         srep_raw: None,
         omit_nonc: slot.no_nonc && proto == r::Proto::Classic,
+        extra_top: Vec::new(),
     };
     let m = midp_value(proto, slot);
     let (mint, maxt) = match slot.window {
@@ -744,6 +783,34 @@ fn ref_respond(spec: &RefServerSpec, ordinal: usize, request: &[u8], src: Socket
                 let mut p2 = honest_parts(proto, &long_seed, &online_seed, &req2, &n2, &slot);
                 p2.nonce = nonce.clone();
                 parts = p2;
+            }
+            Forgery::LooseRoot => {
+                let mut n2 = nonce.clone();
+                n2[0] ^= 1;
+                let mut req2 = request.to_vec();
+                if let Some(pos) = request.windows(nonce.len()).position(|w| w == &nonce[..]) {
+                    req2[pos] ^= 1;
+                }
+                let mut p2 = honest_parts(proto, &long_seed, &online_seed, &req2, &n2, &slot);
+                p2.nonce = nonce.clone();
+                p2.path = Vec::new();
+                p2.index = 0u32.to_le_bytes().to_vec();
+                let leaf: &[u8] = if proto == r::Proto::Classic { &nonce } else { request };
+                p2.extra_top.push((r::ROOT, r::leaf_hash(proto, leaf)));
+                parts = p2;
+            }
+            Forgery::ShadowTag { tag, seed } => {
+                let mut v = vec![0u8; if tag == "PUBK" || tag == "ROOT" { 32 } else if tag == "RADI" { 4 } else { 8 }];
+                Rng::derive(*seed, "shadow").fill(&mut v);
+                let t = match tag.as_str() {
+                    "MIDP" => r::MIDP,
+                    "RADI" => r::RADI,
+                    "PUBK" => r::PUBK,
+                    "MINT" => r::MINT,
+                    "MAXT" => r::MAXT,
+                    _ => r::ROOT,
+                };
+                parts.extra_top.push((t, v));
             }
             Forgery::WrongIndex(k) => {
                 if slot.depth > 0 {
